@@ -70,6 +70,25 @@ def handle_programs(tier, seed):
     return list(gen.handle_seq_programs(3)) + list(gen.handle_seq_programs(4, flavs=("aa", "sa"), prefill=(1,)))
 
 
+def hbfreeze_programs(tier, seed):
+    """C07 freeze sweep: for each base scenario the releasing process is frozen before its k-th hook for every k,
+    while parked owners may wake up spuriously and run to their return."""
+    rng = random.Random("hbfreeze/%d" % seed)
+    nb, kmax = (14, 30) if tier == "quick" else (150, 45)
+    out = []
+    for _ in range(nb):
+        base = gen.gen_progress(rng) if rng.random() < 0.75 else gen.gen_chain(rng)
+        victim = len(base["procs"]) - 1 if rng.random() < 0.8 else rng.randrange(len(base["procs"]))
+        for k in range(1, kmax + 1):
+            p = json.loads(json.dumps(base))
+            st = dict(p.get("strat", {}))
+            st.update({"freeze": [victim, k], "p_spurious": 0.5, "max_spurious": 3, "seed": rng.randrange(1 << 30)})
+            p["strat"] = st
+            p["execs"] = 1
+            out.append(p)
+    return out
+
+
 # L2 conformance stage (hook-level trace validation against Kanal.tla): (programs per capacity, executions each)
 L2Q, L2T = (50, 2), (600, 4)
 
@@ -82,6 +101,13 @@ PLANS = {
                       R("chain", (150, 3000), (2, 6), None, True)]),
     "C05": dict(mc=MC("timed", "async"), runs=[R("general", (250, 4000), (3, 6), "C05", True), R("timed", (200, 3000), (3, 6), "C05", True),
                       R("async", (200, 3000), (3, 6), "C05", True), R("chain", (100, 2000), (2, 6), "C05", True)]),
+    "C07": dict(mc=MC("sync", "async"),
+                runs=[R("hbfreeze", (0, 0), (1, 1), None, False, programs_fn=hbfreeze_programs, rawmon=[("HBMonitor", "HBMonitor.cfg")]),
+                      R("general", (200, 4000), (3, 6), None, False, rawmon=[("HBMonitor", "HBMonitor.cfg")]),
+                      R("async", (150, 3000), (3, 6), None, False, rawmon=[("HBMonitor", "HBMonitor.cfg")]),
+                      R("poll", (150, 3000), (3, 6), None, False, rawmon=[("HBMonitor", "HBMonitor.cfg")]),
+                      R("timed", (100, 3000), (3, 6), None, False, rawmon=[("HBMonitor", "HBMonitor.cfg")])],
+                assume=["happens-before is computed from the orderings actually passed to the atomics on sequentially consistent interleavings; stale relaxed reads of weaker-than-SC executions are not enumerated"]),
     "C08": dict(mc=MC("sync"), runs=[R("capacity", (300, 5000), (3, 6), "C08", True), R("general", (150, 2000), (3, 5), "C08", True)]),
     "C10": dict(mc=MC("sync", "timed"), runs=[R("close", (300, 5000), (3, 6), "C10", True), R("general", (150, 2000), (3, 5), "C10", True)]),
     "C11": dict(mc=MC("handles"), runs=[R("hseq", (0, 0), (1, 1), "C11", True, programs_fn=handle_programs, own_all=True),
@@ -89,6 +115,19 @@ PLANS = {
     "C12": dict(mc=MC("handles") + MCA("1p"), runs=[R("hseq", (0, 0), (1, 1), "C12", True, programs_fn=handle_programs, own_all=True),
                                         R("handles", (300, 5000), (3, 6), "C12", True)]),
     "C13": dict(mc=MC("timed"), runs=[R("timed", (400, 6000), (4, 8), "C13", True), R("chain", (150, 3000), (2, 6), "C13", True)]),
+    "C04": dict(mc=MC("mixed"), runs=[R("integrity_" + pl, (n, n * 12), (2, 4), "C04", True, own_all=True)
+                                      for pl, n in (("u8", 260), ("u16", 120), ("w1", 60), ("h4", 60), ("b3", 60), ("p5", 60), ("z0", 40), ("z64", 40))],
+                assume=["bit patterns: u8 exhaustive (every value on rotating paths), u16 boundary + random, larger classes checksum-tagged ids; the TLA+ side carries identities, bytes are compared by the harness projection id <-> bytes"]),
+    "C06": dict(mc=MC("sync", "async"), runs=[R("progress", (500, 8000), (3, 6), "ALL", True, own_all=True), R("chain", (100, 2000), (2, 4), None, True, own_all=True)]),
+    "C09": dict(mc=MC("mixed"), runs=[R("mixed", (400, 8000), (3, 6), "C09", True, own_all=True)]),
+    "C14": dict(mc=MC("try"), runs=[R("try", (300, 6000), (3, 6), None, True, rawmon=[("NonBlocking", "NonBlocking.cfg")]),
+                                    R("tryfreeze", (300, 6000), (2, 4), None, True, rawmon=[("NonBlocking", "NonBlocking.cfg")])]),
+    "C15": dict(mc=MC("async"), runs=[R("fdrop", (400, 8000), (4, 8), "C15", True), R("chain", (150, 3000), (2, 6), "C15", True)]),
+    "C16": dict(mc=MC("async"), runs=[R("poll", (400, 8000), (4, 8), "C16", True)]),
+    "C17": dict(mc=[dict(module="SpinMutex", cfg=("MC_SpinMutex.cfg", "MC_SpinMutex.cfg"))], l2=False,
+                runs=[R("mutex", (200, 6000), (2, 6), None, False, rawmon=[("SpinMutexTrace", "SpinMutexTrace.cfg"), ("HBMonitor", "HBMonitor.cfg")]),
+                      R("mutexfreeze", (200, 6000), (2, 4), None, False, rawmon=[("SpinMutexTrace", "SpinMutexTrace.cfg"), ("HBMonitor", "HBMonitor.cfg")])],
+                assume=["the back-off iteration counts of spin_cond are abstracted to an unbounded retry loop; a frozen lock holder is observed for a bounded number of failed attempts only"]),
     "C18": dict(mc=MCA("1p"), l2=False,
                 runs=[R("seq", (0, 0), (1, 1), None, True, programs_fn=seq_programs)],
                 assume=["single-thread call sequences: exhaustive up to length 2 (quick) / 3 (thorough) over a 58-call alphabet per capacity, random longer ones"]),
@@ -165,11 +204,11 @@ def run_one_config(prop, run, tier, seed, wd, tag, stats, findings, programs=Non
             with open(sub, "w") as f:
                 for p in programs[start:]:
                     f.write(json.dumps(p) + "\n")
-        r = vlib.run_harness(sub, wd, "%s.%d" % (tag, part), execs=run["execs"][ti], seed=seed + part)
+        r = vlib.run_harness(sub, wd, "%s.%d" % (tag, part), execs=run["execs"][ti], seed=seed + part, raw=bool(run.get("rawmon")))
         part += 1
         begun, done = vlib.load_meta(r["meta"])
         stats["executions"] += len(done)
-        hist_files.append((r["hist"], r["meta"], start))
+        hist_files.append((r["hist"], r["meta"], start, r.get("raw")))
         if r["rc"] == 0:
             break
         # crashed: the last begun execution has no summary
@@ -184,7 +223,7 @@ def run_one_config(prop, run, tier, seed, wd, tag, stats, findings, programs=Non
         start = gi + 1
         if stats["crashes"] > 5:
             break
-    for hist, meta, off in hist_files:
+    for hist, meta, off, rawf in hist_files:
         begun, done = vlib.load_meta(meta)
         execs = vlib.split_hist(hist)
         # drop a trailing partial execution (crash)
@@ -224,6 +263,19 @@ def run_one_config(prop, run, tier, seed, wd, tag, stats, findings, programs=Non
                 owned = l1_owned(prop, rj) or run.get("own_all")
                 findings.append(dict(kind="l1" if owned else "l1-other", prog=programs[off + d.get("prog", 0)],
                                      seed=d.get("seed", 0), detail=dict(record=rj["record"], line=rj["line"])))
+        for module, cfg in run.get("rawmon", []):
+            if not rawf or not os.path.exists(rawf):
+                continue
+            v = vlib.validate_trace(module, cfg, rawf, wd, timeout=900, splitter=vlib.split_raw)
+            stats["l0_states"] += v["distinct"]
+            stats["l0_trans"] += v["generated"]
+            stats["raw_validated"] = stats.get("raw_validated", 0) + v["accepted"]
+            for rj in v["rejected"]:
+                d = done.get(rj["x"], {})
+                findings.append(dict(kind="raw", prog=programs[off + d.get("prog", 0)], seed=d.get("seed", 0),
+                                     detail=dict(monitor=module, record=rj["record"][:300], line=rj["line"])))
+        if rawf and os.path.exists(rawf):
+            os.remove(rawf)
         if not stats["samples"]:
             x, ls = good[len(good) // 2]
             stats["samples"].append(dict(kind="validated real history (program %d)" % done.get(x, {}).get("prog", -1),
@@ -235,7 +287,7 @@ STUCK_OWNERS = {"C06"}
 
 def owns_finding(prop, f):
     k = f["kind"]
-    if k in ("l0", "l1"):
+    if k in ("l0", "l1", "raw"):
         return True
     if k == "stuck":
         if prop == "C06":
@@ -251,6 +303,8 @@ def owns_finding(prop, f):
         if prop == "C15" and "drop_fut" in ops:
             return True
         if prop == "C10" and "close" in ops:
+            return True
+        if prop == "C17" and ops & {"lock", "try_lock", "unlock"}:
             return True
         return False
     if k == "crash":
@@ -301,7 +355,8 @@ def run_check(prop, tier, seed, build=True):
     cov = dict(
         states=stats["mc_states"] + stats["l0_states"] + stats["l1_states"] + stats["l2_states"],
         transitions=stats["mc_trans"] + stats["l0_trans"] + stats["l1_trans"] + stats["l2_trans"],
-        traces_validated_against_impl=stats["l0_validated"] + stats["l1_validated"] + stats["l2_validated"],
+        traces_validated_against_impl=stats["l0_validated"] + stats["l1_validated"] + stats["l2_validated"] + stats.get("raw_validated", 0),
+        hook_traces_validated_by_monitor=stats.get("raw_validated", 0),
         hook_traces_validated_l2=stats["l2_validated"], hook_events_validated_l2=stats["l2_events"],
         drift=stats["drift"],
         samples=stats["samples"] or [dict(note="no execution recorded")],
